@@ -202,7 +202,15 @@ def gen_value(schema, att, rng, location="body", depth=0):
         return out
     if t.get("is_object") or t.get("object"):
         return gen_object(schema, a, rng, location, depth)
+    if t.get("one_of") and UNIONS:
+        alt = rng.choice(t["one_of"])
+        v = gen_value(schema, alt["att"], rng, location, depth + 1)
+        return None if v is None else {alt["name"]: v}
     return None
+
+
+# OneOf unions are only built where the driver can carry them (the gRPC exchanges of C10)
+UNIONS = False
 
 
 def gen_object(schema, att, rng, location="body", depth=0, locations=None):
